@@ -319,7 +319,16 @@ def getitem(eng, st, base, sl):
                 return Mat((f.n, m.shape[1]), lambda x, y, m=m, f=f: m.fn(f.fn(x), y), m.esort)
             if kind[0] == 'pair':
                 f0, f1 = kind[1], kind[2]
-                return Row(f0.n, lambda q, m=m, f0=f0, f1=f1: m.fn(f0.fn(q), f1.fn(q)), m.esort)
+                out = Row(f0.n, lambda q, m=m, f0=f0, f1=f1: m.fn(f0.fn(q), f1.fn(q)), m.esort)
+                i_ref, j_ref = kind[3]
+                mi, mj = st.heap[i_ref.oid].meta or {}, st.heap[j_ref.oid].meta or {}
+                if mi.get('where_cond') is not None and mi.get('where_id') is not None and mi.get('where_id') == mj.get('where_id'):
+                    # M[np.where(mask)] selects the cells where the mask holds, each once, in row-major order: the same entries as M[mask];
+                    # its SUM is the sum of M over the masked cells (Lean: tot_eq_sum_enumeration_of_inj_surj for the enumeration of the cells)
+                    cond = mi['where_cond']
+                    out.masksum = (m, Mat(m.shape, lambda x, y, cond=cond: cond(x, y), BOOL))
+                    out.masksum_base = st.heap[base.oid].term if isinstance(base, Ref) else None     # contents of the indexed matrix at the time of the read
+                return out
             raise OutOfSubset('2-D single index %s' % kind[0])
         if len(elts) != 2:
             raise OutOfSubset('index arity')
@@ -937,6 +946,17 @@ def np_delete(eng, st, args, kw, node):
     return np_where(eng, st, [neg], {}, node)[0]
 
 
+def np_isnan(eng, st, args, kw, node):
+    """np.isnan: the real-number model has no NaN (the modelled operations produce none: x / 0 is modelled only for a positive constant numerator,
+    as +infinity): False everywhere."""
+    v = args[0]
+    if isinstance(v, (Ref, Row, Mat)):
+        r = elementwise(eng, st, lambda t: z3.BoolVal(False), v)
+        r.esort = BOOL
+        return r
+    return z3.BoolVal(False)
+
+
 def np_isinf(eng, st, args, kw, node):
     v = args[0]
     f = lambda t: z3.Or(to_z3(t, REAL) == z3.Real('INF'), to_z3(t, REAL) == -z3.Real('INF'))
@@ -1147,6 +1167,10 @@ def np_sum(eng, st, args, kw, node):
         return core.agg(W, c, la - 1, lb - 1, to_z3(n, INT))
     if isinstance(v, Row) and getattr(v, 'masksum', None) is not None and axis is None:
         m_, mk = v.masksum
+        xs_, ys_ = z3.Ints('x!mt y!mt')
+        if getattr(v, 'masksum_base', None) is not None and z3.is_true(z3.simplify(truth(mk.fn(xs_, ys_)))) and m_.esort == REAL \
+                and z3.simplify(to_z3(m_.shape[0], INT) - to_z3(m_.shape[1], INT)).eq(z3.IntVal(0)):
+            return core.tsum(eng.pure(v.masksum_base), to_z3(m_.shape[0], INT))        # the mask holds everywhere: the sum of all entries
         sel = materialise(eng, st, Mat(m_.shape, lambda x, y, m_=m_, mk=mk: z3.If(truth(mk.fn(x, y)), to_z3(m_.fn(x, y), REAL), z3.RealVal(0)), REAL))
         if not z3.simplify(to_z3(m_.shape[0], INT) - to_z3(m_.shape[1], INT)).eq(z3.IntVal(0)):
             raise OutOfSubset('mask selection of a non-square matrix')
